@@ -72,7 +72,9 @@ func checkFresh(c freshCase) error {
 	ctx, cancel := context.WithTimeout(context.Background(), 2*time.Minute)
 	defer cancel()
 	cmd := exec.CommandContext(ctx, os.Args[0], "-test.run=^TestFreshChild$")
-	cmd.Env = append(os.Environ(), "VERIF_C09_CHILD=1", "VERIF_OUT=", "GORACE=atexit_sleep_ms=0")
+	// (the fresh process is also another machine: no Go installation where this one has it)
+	cmd.Env = append(os.Environ(), "VERIF_C09_CHILD=1", "VERIF_OUT=", "GORACE=atexit_sleep_ms=0", "GOROOT=/nonexistent/go", "GOPATH=/nonexistent/gopath", "HOME=/nonexistent", "TZ=Pacific/Kiritimati", "LANG=tr_TR.UTF-8")
+	cmd.Dir = os.TempDir()
 	cmd.Stdin = bytes.NewReader(in)
 	out, err := cmd.Output()
 	if err != nil {
@@ -128,6 +130,15 @@ func TestC09Fresh(t *testing.T) {
 		}
 		if lit {
 			c.Job = litFile(rt, "j")
+			if rapid.IntRange(0, 3).Draw(rt, "toolchainpaths") == 2 {
+				// references to directories of the installed toolchain's src tree that are no ordinary packages
+				for _, p := range []string{"arena", "crypto/boring", "runtime/msan", "syscall/js", "cmd/asm"} {
+					if rapid.Bool().Draw(rt, "tp") {
+						c.Job.Body = append(c.Job.Body, recipe.S().C("Var").C("Id", "_").C("Op", "=").Add(recipe.Qual(p, "X")))
+					}
+				}
+				r.Class("fresh:toolchain_paths")
+			}
 			r.Class("fresh:confusable_literals")
 		} else {
 			c.Job = stripRefs(genJob(rt))
